@@ -207,7 +207,7 @@ impl Elf {
             };
 
             let name = &elf.dynstrtab[sym.st_name];
-            symbols.push(Symbol::new(name, rel.r_offset));
+            symbols.push(Symbol::new(name, rel.r_offset + self.base_address()));
         }
 
         symbols.sort();
@@ -301,7 +301,7 @@ impl Loader for Elf {
     }
 
     fn program_entry(&self) -> u64 {
-        self.elf().header.e_entry
+        self.elf().header.e_entry + self.base_address
     }
 
     fn architecture(&self) -> &dyn Architecture {
